@@ -122,6 +122,7 @@ func main() {
 	witness := flag.Bool("witness", false, "vacuity twin: every cover label becomes assert(false) and must be violated")
 	cpuprof := flag.String("cpuprofile", "", "write CPU profile")
 	paramOverride := flag.String("param", "", "override params: N=5,M=2 (debugging)")
+	maxpathsFlag := flag.Int("maxpaths", 0, "path budget override (debugging)")
 	flag.Parse()
 	if flag.NArg() != 1 {
 		fmt.Fprintln(os.Stderr, "usage: vcheck [-tier quick|thorough] [-replay file] <property>")
@@ -259,6 +260,9 @@ func main() {
 		}
 		if t, ok := run.TimeoutS[*tier]; ok {
 			timeout = t
+		}
+		if *maxpathsFlag > 0 {
+			run.MaxPaths = *maxpathsFlag
 		}
 		cfg := &sym.Config{
 			Prog: prog, Pkg: pkg, Entry: run.Entry, Workers: *workers, MaxPaths: run.MaxPaths,
